@@ -105,6 +105,7 @@ class Rule:
           call   `pat` evaluates `coq`, a pair bound with the pattern `bind` ({r} = the result of type `typ`)
           icall  `pat` calls the wrapped store: `let '(s, raw) := coq in match raw with <ctor> => .. | _ => propagate`
           ecall  `pat` evaluates `coq`, an option: Some r is the result, None means that an exception was raised
+          xcall  `pat` evaluates `coq`, a sum: inr r is the result, inl e the exception that is propagated as it is
           noop   `pat` has no effect on the model (logging); its arguments must be log-safe
     args: expected type of every metavariable ({X} in `coq` is the translation of `__X`)."""
     pat: str
@@ -125,12 +126,13 @@ class Rule:
             self.is_stmt, self.ast = False, st.value
         else:
             self.is_stmt, self.ast = True, st
-        assert self.kind in ("pure", "update", "call", "icall", "ecall", "noop"), self.kind
+        assert self.kind in ("pure", "update", "call", "icall", "ecall", "xcall", "noop"), self.kind
 
     def describe(self):
         what = {"pure": self.coq, "update": f"{self.state} := {self.coq}", "call": f"{self.bind} := {self.coq}",
                 "icall": f"(s, raw) := {self.coq} ; raw decoded by {self.ctor}, anything else is propagated",
                 "ecall": f"{self.coq} ; Some r: the result, None: an exception is raised",
+                "xcall": f"{self.coq} ; inr r: the result, inl e: the exception e is propagated",
                 "noop": "no effect on the model"}[self.kind]
         ty = f" : {show_ty(self.typ)}" if self.typ and self.kind != "noop" else ""
         d = f"   -- {self.doc}" if self.doc else ""
@@ -174,6 +176,7 @@ class Target:
     pre_binders: str = ""         # binders that precede the translated parameters
     local_types: dict = field(default_factory=dict)   # local variable -> type (when it is assigned values of several types)
     readers: tuple = ()           # zero-argument functions that may be called in a log line (they only read the state)
+    raise_by: dict = field(default_factory=dict)      # exception class -> result of `raise <class>(..)` (takes precedence over raise_)
 
 
 COQ_TYPES = {"bool": "bool", "nat": "nat", "Z": "Z", "bytes": "bytes", "unit": "unit"}
@@ -297,7 +300,7 @@ class Tr:
     def is_effectful(self, node):
         for sub in ast.walk(node):
             for r in self.T.rules:
-                if not r.is_stmt and r.kind in ("update", "call", "icall", "ecall") and match(r.ast, sub, {}):
+                if not r.is_stmt and r.kind in ("update", "call", "icall", "ecall", "xcall") and match(r.ast, sub, {}):
                     return True
         return False
 
@@ -366,6 +369,10 @@ class Tr:
                     raise self.bad(node, "call that may raise where raise is not understood")
                 x = self.fresh()
                 return f"match {term} with\n| Some {x} =>\n{indent(k(x, r.typ), 4)}\n| None => {raise_here()}\nend"
+            if r.kind == "xcall":
+                x = self.fresh()
+                e_ = self.fresh()
+                return f"match {term} with\n| inr {x} =>\n{indent(k(x, r.typ), 4)}\n| inl {e_} => inl {e_}\nend"
             if r.kind == "icall":
                 if self.T.propagate is None:
                     raise self.bad(node, "icall without a propagation rule")
@@ -607,6 +614,10 @@ class Tr:
         if rest:
             raise self.bad(rest[0], "statement after raise")
         x = st.exc
+        if st.cause is None and isinstance(x, ast.Call) and isinstance(x.func, ast.Name) and x.func.id in self.T.raise_by:
+            for a in list(x.args) + [kw.value for kw in x.keywords]:
+                log_safe(a, self.T.readers)
+            return self.T.raise_by[x.func.id]
         if st.cause is not None or not (isinstance(x, ast.Call) and isinstance(x.func, ast.Name) and x.func.id in self.T.exceptions):
             raise self.bad(st, "raise of something else than a known exception")
         for a in list(x.args) + [kw.value for kw in x.keywords]:
@@ -659,6 +670,11 @@ class Tr:
 
     def s_AnnAssign(self, st, rest, env, ctx):
         if st.value is None:
+            # a bare declaration `x: T`: no effect; the type must be the one the vocabulary gives to the local
+            a0 = ast.unparse(st.annotation)
+            if isinstance(st.target, ast.Name) and self.T.annotations.get(a0) is not None \
+                    and self.T.local_types.get(st.target.id) == self.T.annotations[a0]:
+                return self.block(rest, env, ctx)
             raise self.bad(st, "annotation without value")
         a = ast.unparse(st.annotation)
         if a not in self.T.annotations:
@@ -1283,4 +1299,145 @@ def gen_memstore():
     body += "(* dds/store.py : MemoryStore.has_blob / fetch_blob / store_blob / sync_paths / fetch_paths, over the types of L4_Eval/Store.v\n"
     body += "   (state: b = self._cache, ps = self._paths; DDSException |-> RErr).  Vocabulary:\n" + vocabulary_doc(MEM_RULES) + " *)\n\n"
     body += MEM_PRELUDE + "\n" + "\n\n".join(defs) + "\n\n(* one constructor of sop per method of the Store interface *)\n" + dispatch
+    return body
+
+
+# ============================================================================= T8  dds/fun_args.py : get_arg_ctx, get_arg_ctx_ast
+
+ARG_PRELUDE = """(* inspect.signature(f).parameters is a list of param (ArgCtx.v); the values passed at run time are pyval, the arguments seen in
+   the source are aarg.  _hash_arg(x) = dds_hash(x if x is not None else MARKER) is hash_opt (subst_default x): the shape of
+   _hash_arg is the regenerated constant c_default_style of Extracted/ConstHash.v.  An exception is inl e. *)
+Definition pkind_eqb (a b : pkind) : bool :=
+  match a, b with POK, POK | VARKW, VARKW | VARPOS, VARPOS | KWONLY, KWONLY | POSONLY, POSONLY => true | _, _ => false end.
+Section GenArgs.
+  Variable H : bytes -> bytes.
+  Variable maxlen : option N.
+  Definition gen_hash_arg (v : pyval) : actx_err + option bytes := hash_opt H maxlen (subst_default v).
+  (* args[idx] with idx < len(args), kwargs[n] with n in kwargs, p.default with a default: the other case is never evaluated *)
+  Definition hash_nth (pos : list pyval) (i : nat) : actx_err + option bytes :=
+    match nth_error pos i with Some v => gen_hash_arg v | None => inr None end.
+  Definition hash_kw (kw : list (bytes * pyval)) (n : bytes) : actx_err + option bytes :=
+    match kw_lookup n kw with Some v => gen_hash_arg v | None => inr None end.
+  Definition hash_default (p : param) : actx_err + option bytes :=
+    match p_default p with Some d => gen_hash_arg d | None => inr None end.
+  Definition aarg_is_constant (a : aarg) : bool := match a with ALit _ => true | ARun => false end.
+  Definition hash_constant_value (a : aarg) : actx_err + option bytes :=
+    match a with ALit v => gen_hash_arg v | ARun => inr None end.
+  (* for (idx, (n, p_)) in enumerate(parameters.items()): <body>; args_hashes.append((ArgName(n), h)) *)
+  Fixpoint loop_params (body : nat -> param -> actx_err + option bytes) (ps : list param) (idx : nat)
+    : actx_err + list (bytes * option bytes) :=
+    match ps with
+    | [] => inr []
+    | p :: r =>
+      match body idx p with
+      | inl e => inl e
+      | inr h => match loop_params body r (S idx) with inl e => inl e | inr l => inr ((p_name p, h) :: l) end
+      end
+    end.
+"""
+
+KIND_NAMES = {"POSITIONAL_OR_KEYWORD": "POK", "VAR_KEYWORD": "VARKW", "VAR_POSITIONAL": "VARPOS", "KEYWORD_ONLY": "KWONLY",
+              "POSITIONAL_ONLY": "POSONLY"}
+
+
+def _kind_rules():
+    rules = []
+    for py, cq in KIND_NAMES.items():
+        rules.append(Rule(f"__P.kind == Parameter.{py}", f"pkind_eqb (p_kind {{P}}) {cq}", "bool", {"P": "param"}))
+    rules.append(Rule("__P.kind not in (Parameter.POSITIONAL_OR_KEYWORD, Parameter.VAR_KEYWORD)",
+                      "negb (pkind_eqb (p_kind {P}) POK || pkind_eqb (p_kind {P}) VARKW)", "bool", {"P": "param"}))
+    rules.append(Rule("__P.kind not in (Parameter.POSITIONAL_OR_KEYWORD, Parameter.VAR_KEYWORD, Parameter.VAR_POSITIONAL)",
+                      "negb (pkind_eqb (p_kind {P}) POK || pkind_eqb (p_kind {P}) VARKW || pkind_eqb (p_kind {P}) VARPOS)", "bool", {"P": "param"}))
+    rules.append(Rule("__P.default != Parameter.empty", "is_some (p_default {P})", "bool", {"P": "param"}))
+    rules.append(Rule("_hash_arg(__P.default)", "hash_default {P}", opt("hash"), {"P": "param"}, kind="xcall"))
+    return rules
+
+
+ARG_RT_RULES = _kind_rules() + [
+    Rule("_hash_arg(args[__I])", "hash_nth pos {I}", opt("hash"), {"I": "nat"}, kind="xcall"),
+    Rule("__N in kwargs", "is_some (kw_lookup {N} kw)", "bool", {"N": "bytes"}),
+    Rule("_hash_arg(kwargs[__N])", "hash_kw kw {N}", opt("hash"), {"N": "bytes"}, kind="xcall"),
+    Rule("num_args", "List.length pos", "nat", doc="num_args = len(args), checked"),
+]
+ARG_AST_RULES = _kind_rules() + [
+    Rule("process_arg(args[__I])", "match nth_error pos {I} with Some a => gen_process_arg a | None => inr None end", opt("hash"),
+         {"I": "nat"}, kind="xcall", doc="the nested function translated above; idx < len(args)"),
+    Rule("__N in kwargs", "is_some (kw_lookup {N} kw)", "bool", {"N": "bytes"}),
+    Rule("process_arg(kwargs[__N])", "match kw_lookup {N} kw with Some a => gen_process_arg a | None => inr None end", opt("hash"),
+         {"N": "bytes"}, kind="xcall", doc="n in kwargs"),
+    Rule("num_args", "List.length pos", "nat", doc="num_args = len(args), checked"),
+]
+PROCESS_RULES = [
+    Rule("isinstance(__X, (ast.Constant, ast.NameConstant))", "aarg_is_constant {X}", "bool", {"X": "aarg"}),
+    Rule("_hash_arg(__X.value)", "hash_constant_value {X}", opt("hash"), {"X": "aarg"}, kind="xcall"),
+]
+ARG_TYPES = {"param": "param", "hash": "bytes", "aarg": "aarg"}
+ARG_RAISES = {"NotImplementedError": "inl AENotImplemented", "DDSException": "inl AEMissing"}
+
+
+def _arg_loop(fdef, what, ret_stmt, extra_prefix=()):
+    """Checks the frame of get_arg_ctx / get_arg_ctx_ast around the loop over the parameters and returns the loop body, with the
+    final `args_hashes.append((ArgName(n), h))` turned into `return h`."""
+    body = [st for st in fdef.body if not (isinstance(st, ast.Expr) and isinstance(st.value, ast.Constant))]
+    pre = [ast.unparse(st) for st in body[:-2] if not isinstance(st, ast.FunctionDef)]
+    want_pre = ["arg_sig = inspect.signature(f)", "num_args = len(args)"] + list(extra_prefix)
+    if pre != want_pre:
+        raise Unrecognised(f"{what}: statements before the loop are {pre}")
+    loop, last = body[-2], body[-1]
+    if not (isinstance(loop, ast.For) and not loop.orelse and ast.unparse(loop.target) == "(idx, (n, p_))"
+            and ast.unparse(loop.iter) == "enumerate(arg_sig.parameters.items())"):
+        raise Unrecognised(f"{what}: the loop over the parameters is not `for (idx, (n, p_)) in enumerate(arg_sig.parameters.items())`")
+    if ast.unparse(last) != ret_stmt:
+        raise Unrecognised(f"{what}: last statement is `{ast.unparse(last)}`")
+    lb = list(loop.body)
+    if not lb or ast.unparse(lb[-1]) != "args_hashes.append((ArgName(n), h))":
+        raise Unrecognised(f"{what}: the loop body does not end with args_hashes.append((ArgName(n), h))")
+    for st in lb[:-1]:
+        for n in ast.walk(st):
+            if isinstance(n, ast.Name) and n.id == "args_hashes":
+                raise Unrecognised(f"{what}: args_hashes is used inside the loop body")
+            if isinstance(n, (ast.Break, ast.Continue, ast.Return)):
+                raise Unrecognised(f"{what}: break / continue / return inside the loop body")
+            if isinstance(n, ast.Name) and n.id in ("idx", "n", "p_", "num_args", "args", "kwargs", "arg_sig") and not isinstance(n.ctx, ast.Load):
+                raise Unrecognised(f"{what}: {n.id} is rebound inside the loop body")
+    return lb[:-1] + [ast.Return(value=ast.Name(id="h", ctx=ast.Load()))]
+
+
+@register("GenArgCtx")
+def gen_argctx():
+    tree = parse("dds/fun_args.py")
+    loop_env = {"idx": ("idx", "nat"), "n": ("(p_name p)", "bytes"), "p_": ("p", "param")}
+    common = dict(raise_by=ARG_RAISES, coq_types=ARG_TYPES, annotations={"inspect.Parameter": "param", "Optional[PyHash]": opt("hash")},
+                  local_types={"h": opt("hash")})
+    # get_arg_ctx
+    f1 = only_toplevel(tree, "get_arg_ctx")
+    b1 = _arg_loop(f1, "get_arg_ctx", "return FunctionArgContext(OrderedDict(args_hashes), None)", ["args_hashes = []"])
+    t1 = Target("gen_rt_body", "(pos : list pyval) (kw : list (bytes * pyval)) (idx : nat) (p : param)", "actx_err + option bytes",
+                [], opt("hash"), "inr {v}", ARG_RT_RULES, **common)
+    d1 = translate(t1, b1, loop_env)
+    # get_arg_ctx_ast and its nested process_arg
+    f2 = only_toplevel(tree, "get_arg_ctx_ast")
+    nested = [st for st in f2.body if isinstance(st, ast.FunctionDef)]
+    if len(nested) != 1 or nested[0].name != "process_arg":
+        raise Unrecognised("get_arg_ctx_ast: expected exactly one nested function, process_arg")
+    for n in ast.walk(nested[0]):
+        if isinstance(n, (ast.Global, ast.Nonlocal)) or (isinstance(n, ast.Name) and n.id in ("args", "kwargs", "args_hashes", "arg_sig", "num_args")):
+            raise Unrecognised("get_arg_ctx_ast.process_arg is not closed")
+    t_p = Target("gen_process_arg", "", "actx_err + option bytes", ["aarg"], opt("hash"), "inr {v}", PROCESS_RULES, coq_types=ARG_TYPES)
+    d_p = translate(t_p, nested[0])
+    b2 = _arg_loop(f2, "get_arg_ctx_ast", "return OrderedDict(args_hashes)", ["args_hashes: List[Tuple[ArgName, Optional[PyHash]]] = []"])
+    t2 = Target("gen_ast_body", "(pos : list aarg) (kw : list (bytes * aarg)) (idx : nat) (p : param)", "actx_err + option bytes",
+                [], opt("hash"), "inr {v}", ARG_AST_RULES, **common)
+    d2 = translate(t2, b2, loop_env)
+    body = GEN_HEADER + "From Coq Require Import NArith.\nFrom DDS Require Import Base.Bytes Base.PyRt Extracted.ConstHash L0_Hash.PyVal L0_Hash.DdsHash L1_Args.ArgCtx.\n\n"
+    body += "(* dds/fun_args.py : the body of the loop over the parameters of get_arg_ctx and of get_arg_ctx_ast (with its nested process_arg),\n"
+    body += "   over the types of L1_Args/ArgCtx.v.  The frame around the loop (arg_sig, num_args = len(args), args_hashes = [], the loop header,\n"
+    body += "   the final append of (ArgName(n), h) and the returned OrderedDict) is checked by shape and is loop_params below.\n"
+    body += "   NotImplementedError |-> inl AENotImplemented ; DDSException |-> inl AEMissing ; idx, n, p_ are idx, p_name p, p.\n"
+    body += "   Vocabulary of get_arg_ctx:\n" + vocabulary_doc(ARG_RT_RULES) + "\n   Vocabulary of process_arg:\n" + vocabulary_doc(PROCESS_RULES)
+    body += "\n   Vocabulary of get_arg_ctx_ast:\n" + vocabulary_doc(ARG_AST_RULES) + " *)\n\n"
+    body += ARG_PRELUDE + "\n" + indent(d1) + "\n\n" + indent(d_p) + "\n\n" + indent(d2) + "\n\n"
+    body += "  Definition gen_get_arg_ctx (ps : list param) (pos : list pyval) (kw : list (bytes * pyval)) := loop_params (gen_rt_body pos kw) ps 0.\n"
+    body += "  Definition gen_get_arg_ctx_ast (ps : list param) (pos : list aarg) (kw : list (bytes * aarg)) := loop_params (gen_ast_body pos kw) ps 0.\n"
+    body += "End GenArgs.\n"
     return body
